@@ -1,6 +1,7 @@
 package rules
 
 import (
+	"go/token"
 	"go/constant"
 	"go/types"
 	"strings"
@@ -295,7 +296,41 @@ func eventsBefore(worker *ssa.Function, ev an.Event, pred func(ssa.CallInstructi
 //	failed   — the atomic.Bool the exported Failed() loads
 //	tdFailed — the atomic.Bool the exported TeardownFailed() loads
 //	tearing  — the plain bool field (routes failures while cleanups run)
-type tFields struct{ stack, failed, tdFailed, tearing *types.Var }
+type tFields struct {
+	stack, failed, tdFailed, tearing *types.Var
+	// the tearing-down phase marker may be a bool or a small enum: the constant Reset stores (not tearing down) and
+	// the constant the teardown stores (tearing down)
+	tearingOff, tearingOn string
+}
+
+// tearingTest reads a branch condition on the phase marker: (tearing down on the side with this polarity, ok).
+func (f tFields) tearingTest(cond ssa.Value, polarity bool) (bool, bool) {
+	if fld, _ := an.TerminalField(cond); an.SameField(fld, f.tearing) {
+		if _, isBin := an.Strip(cond).(*ssa.BinOp); !isBin {
+			return polarity, true
+		}
+	}
+	bo, ok := an.Strip(cond).(*ssa.BinOp)
+	if !ok || (bo.Op != token.EQL && bo.Op != token.NEQ) {
+		return false, false
+	}
+	x, y := bo.X, bo.Y
+	if _, isK := x.(*ssa.Const); isK {
+		x, y = y, x
+	}
+	k, isK := y.(*ssa.Const)
+	if fld, _ := an.TerminalField(x); !isK || k.Value == nil || !an.SameField(fld, f.tearing) {
+		return false, false
+	}
+	eq := (bo.Op == token.EQL) == polarity // on this side the marker equals k
+	switch k.Value.String() {
+	case f.tearingOn:
+		return eq, true
+	case f.tearingOff:
+		return !eq, true
+	}
+	return false, false
+}
 
 func handleFields(c *core.Ctx) tFields {
 	var f tFields
@@ -314,12 +349,39 @@ func handleFields(c *core.Ctx) tFields {
 				f.stack = v
 			}
 		case *types.Basic:
-			if t.Kind() == types.Bool {
+			if t.Kind() == types.Bool || (t.Info()&types.IsInteger != 0 && v.Type() != t) {
+				// a plain bool, or a small enum type of the package (a phase marker)
 				if f.tearing != nil {
-					panic(core.AnchorError{What: "testing.T has more than one plain bool field: which routes failures during teardown?"})
+					panic(core.AnchorError{What: "testing.T has more than one plain bool / enum field: which routes failures during teardown?"})
 				}
 				f.tearing = v
 			}
+		}
+	}
+	if f.tearing != nil {
+		reset := c.MustFn("pkg/f1/testing", "T.Reset")
+		for _, fn := range c.AllFuncs {
+			if core.RelPkg(fn) != "pkg/f1/testing" {
+				continue
+			}
+			an.Instrs(fn, func(in ssa.Instruction) {
+				st, ok := in.(*ssa.Store)
+				if !ok || !an.SameField(an.FieldOfAddr(st.Addr), f.tearing) {
+					return
+				}
+				k, isK := st.Val.(*ssa.Const)
+				if !isK || k.Value == nil {
+					return
+				}
+				if fn == reset {
+					f.tearingOff = k.Value.String()
+				} else if an.Outermost(fn).Signature.Recv() != nil {
+					f.tearingOn = k.Value.String()
+				}
+			})
+		}
+		if f.tearingOff == "" || f.tearingOn == "" || f.tearingOff == f.tearingOn {
+			panic(core.AnchorError{What: "the two values of testing.T's tearing-down marker (stored by Reset and by the teardown)"})
 		}
 	}
 	loaded := func(method string) *types.Var {
